@@ -25,7 +25,7 @@ Open Scope N_scope.
     [_partial] (DESIGN naming rule): the property text is FALSE on the real code for the class [hist_ok]
     removes (C01_empty_line_swallowed_refuted); further restrictions: the 7-part template family,
     single-column characters, a [ready] start, no I/O failures, the sequential model (the tie to the
-    locking discipline is C01_calls_are_one_bar_section below). *)
+    locking discipline is C01_calls_have_at_most_one_bar_section below). *)
 Theorem C01_screen_partial :
   forall (W H : N) (pre : list (list N)) (s0 : sys) (t0 : term) (h : list (N * op)),
   1 <= W -> 1 <= H ->
@@ -147,35 +147,47 @@ Example C01_empty_closure_lines_covered :
 Proof. vm_compute. repeat split. Qed.
 
 (** ------------------------------------------------------------------------------------------------
-    Why "one op = one atomic step" is a faithful reading of the code when other threads hold clones
-    of the handle.  The theorems above run a SEQUENTIAL model.  Over the structured lock footprints
-    that tools/locks_extract.py regenerates from /repo/src on every run (gen/LockFootprints.v),
-    on EVERY path of EVERY call of the C01 alphabet:
-      - the call is at most ONE outermost critical section over the bar mutex ([bar_sections]), and
-      - every marked state access - taking the MultiState lock for the paint, BarState::tick, every
+    How far "one op = one atomic step" is a faithful reading of the code when other threads hold
+    clones of the handle.  The theorems above run a SEQUENTIAL model.  Over the structured lock
+    footprints that tools/locks_extract.py regenerates from /repo/src on every run
+    (gen/LockFootprints.v), on EVERY path of EVERY call of the C01 alphabet:
+      - the call has AT MOST one outermost critical section over the bar mutex ([bar_sections]):
+        EXACTLY one for every call except tick / inc / dec / set_position ([c01_may_skip]), which may
+        do nothing under the mutex (steady ticker running; position limiter refuses the draw), and
+      - every MARKED state access - taking the MultiState lock for the paint, BarState::tick, every
         user callback - happens while that mutex is held, the mutex is never given up by a condvar
         wait, and the trace is balanced ([inside_bar]);
     ProgressBar::drop never takes the bar mutex: the handle gives up its Arc first and everything
     else runs with exclusive ownership ([owned_access]); the number of its sections over the
     MultiState lock is the documented one (Brackets.allowed_sections, property C02).
-    Not covered by the footprints: TermLike / Write calls are not marked individually (they are made
-    by the draw, which is inside the MultiState section that [inside_bar] places inside the bar
-    section). *)
-Theorem C01_calls_are_one_bar_section :
+    NOT covered (the footprints have no marker for them):
+      - the unlocked atomics of inc / dec / set_position and tick: the position store
+        (AtomicPosition fetch_add / store), the position limiter (`pos.allow(now)`) and the
+        ticker-slot read run BEFORE the bar section, outside the mutex.  The sequential model does
+        "store the position, ask the limiter, maybe paint" in one step; C01 has one thread issuing
+        the calls, so nothing can come in between there; with concurrent clones it can (C02's open
+        finding D33 is the concurrent consequence).  So the atomic-step reading is justified by this
+        theorem only for what the calls do behind the mutex;
+      - TermLike / Write calls are not marked individually (they are made by the draw, which is
+        inside the MultiState section that [inside_bar] places inside the bar section). *)
+Theorem C01_calls_have_at_most_one_bar_section :
   forall o : op, c01_op o = true ->
   exists name p, c01_call o = Some name /\ pg_lookup name all_programs = Some p /\
     forall tr, paths p tr ->
       if String.eqb name "ProgressBar::drop"
       then owned_access tr = true /\ (sections tr <= allowed_sections name)%nat
-      else (bar_sections tr <= 1)%nat /\ inside_bar tr = true.
+      else if c01_may_skip name
+      then (bar_sections tr <= 1)%nat /\ inside_bar tr = true
+      else bar_sections tr = 1%nat /\ inside_bar tr = true.
 Proof. exact c01_calls_atomic. Qed.
-Print Assumptions C01_calls_are_one_bar_section.
+Print Assumptions C01_calls_have_at_most_one_bar_section.
 
 (** ... in particular the closure given to ProgressBar::suspend runs INSIDE the one bar section: on
-    every path of the generated program, and there is a path on which a callback occurs *)
+    every path of the generated program (exactly one section), and there is a path on which a
+    callback occurs *)
 Theorem C01_suspend_closure_inside_bar_section :
   exists p, pg_lookup "ProgressBar::suspend" all_programs = Some p /\
-    (forall tr, paths p tr -> (bar_sections tr <= 1)%nat /\ inside_bar tr = true) /\
+    (forall tr, paths p tr -> bar_sections tr = 1%nat /\ inside_bar tr = true) /\
     (exists tr, paths p tr /\ In CCallback tr).
 Proof. exact suspend_closure_inside. Qed.
 Print Assumptions C01_suspend_closure_inside_bar_section.
